@@ -627,7 +627,11 @@ class OutputSchemaBuilder(
         with context_setter(self):
             # the type of the field is not part of the flattening
             self.get_flattened = None
-            factory = self.visit_with_conv(field.type, field.serialization)
+            # as for the serialization method: the None of a none_as_undefined field stays visible
+            factory = self.visit_with_conv(
+                Optional[field.type] if field.none_as_undefined else field.type,
+                field.serialization,
+            )
         field_schema = get_field_schema(tp, field)
         return lambda: graphql.GraphQLField(
             factory.type,
